@@ -30,6 +30,12 @@ Channel_handleEvent_runs (tied guard : bool) : bool,  Channel_handleEvent_guard_
 EventLoop_loop_dispatches_snapshot : bool
     EventLoop::loop: the while body clears activeChannels_, fills it by poller_->poll(.., &activeChannels_)
     and then calls handleEvent on EVERY element of it, with no test in the range-for body.
+EventLoop_queueInLoop_wake_guard (isInLoopThread callingPendingFunctors looping : bool) : bool
+    the condition under which queueInLoop calls wakeup(), translated from its if-statement
+    (link lemma C09_ProofsLoop.queue_wake_link).
+EventLoop_loop_pending_after_dispatch, EventLoop_doPendingFunctors_swaps : bool
+    the while body of loop() calls doPendingFunctors() after the dispatch loop; doPendingFunctors sets
+    callingPendingFunctors_, swaps pendingFunctors_ into a local vector and runs every element of it.
 EventLoop_handleRead_reads_wakeupfd / EventLoop_handleRead_read_size / EventLoop_eventfd_semaphore,
 TimerQueue_handleRead_reads_timerfd / TimerQueue_readTimerfd_read_size
     the wake-up eventfd and the timerfd are read (8 bytes, unconditionally) by the read callbacks of
@@ -598,6 +604,73 @@ def wake_facts():
     return out
 
 
+# ---- EventLoop::queueInLoop / doPendingFunctors -----------------------------------------------------
+def q_bool(node):
+    node = cxxast.strip(node)
+    k = node.get("kind")
+    if k == "MemberExpr" and node.get("name") in ("callingPendingFunctors_", "looping_"):
+        return node["name"].rstrip("_")
+    if k == "CXXMemberCallExpr" and member_name(node)[0] == "isInLoopThread":
+        return "isInLoopThread"
+    if k == "UnaryOperator" and node.get("opcode") == "!":
+        return neg(q_bool(node["inner"][0]))
+    if k == "BinaryOperator" and node.get("opcode") in ("&&", "||"):
+        f = conj if node["opcode"] == "&&" else disj
+        return f([q_bool(node["inner"][0]), q_bool(node["inner"][1])])
+    raise Untr("condition %s" % k)
+
+
+def queue_facts():
+    fn = cxxast.function_decl("muduo/net/EventLoop.cc", "EventLoop::queueInLoop")
+
+    def is_wakeup(n):
+        return n.get("kind") == "CXXMemberCallExpr" and member_name(n)[0] == "wakeup"
+    alts = [conj([q_bool(c) if pol else neg(q_bool(c)) for c, pol in path]) for _, path in paths_to(cxxast.body(fn), is_wakeup)]
+    guard = disj(alts) if alts else "false"
+    # loop(): doPendingFunctors() is a direct statement of the while body, after the dispatch loop
+    fn = cxxast.function_decl("muduo/net/EventLoop.cc", "EventLoop::loop")
+    wh = [n for n in cxxast.walk(fn) if n.get("kind") == "WhileStmt"]
+    after = False
+    if len(wh) == 1:
+        seen_for = False
+        for st in kids(kids(wh[0])[1]):
+            if st.get("kind") == "CXXForRangeStmt":
+                seen_for = True
+            node = cxxast.strip(st)
+            if node.get("kind") == "CXXMemberCallExpr" and member_name(node)[0] == "doPendingFunctors":
+                after = seen_for
+    # doPendingFunctors: callingPendingFunctors_ = true; functors.swap(pendingFunctors_); for (f : functors) f();
+    fn = cxxast.function_decl("muduo/net/EventLoop.cc", "EventLoop::doPendingFunctors")
+    stage, local = 0, None
+    for n in cxxast.walk(cxxast.body(fn)):
+        k = n.get("kind")
+        if stage == 0 and k == "BinaryOperator" and n.get("opcode") == "=":
+            lhs = cxxast.strip(n["inner"][0])
+            if lhs.get("name") == "callingPendingFunctors_":
+                try:
+                    if cxxast.const_eval(n["inner"][1]) == 1:
+                        stage = 1
+                except Exception:  # noqa
+                    pass
+        elif stage == 1 and k == "CXXMemberCallExpr" and member_name(n)[0] == "swap":
+            names = [m.get("name") for m in cxxast.walk(n) if m.get("kind") == "MemberExpr"]
+            refs = [m.get("referencedDecl", {}).get("name") for m in cxxast.walk(n) if m.get("kind") == "DeclRefExpr"]
+            if "pendingFunctors_" in names and refs:
+                local = [r for r in refs if r and not r.startswith("operator")][0]
+                stage = 2
+        elif stage == 2 and k == "CXXForRangeStmt":
+            rng = []
+            for d in kids(n)[:-1]:
+                for v in cxxast.walk(d):
+                    if v.get("kind") == "VarDecl" and str(v.get("name", "")).startswith("__range"):
+                        rng += [m.get("referencedDecl", {}).get("name") for m in cxxast.walk(v) if m.get("kind") == "DeclRefExpr"]
+            body = kids(n)[-1]
+            bad = [m.get("kind") for m in cxxast.walk(body) if m.get("kind") in ("IfStmt", "ContinueStmt", "BreakStmt", "ReturnStmt")]
+            if local in rng and not bad:
+                stage = 3
+    return guard, after, stage == 3
+
+
 def cmt(s):
     return s.replace("(*", "( *").replace("*)", "* )")
 
@@ -672,6 +745,15 @@ def main():
     except Exception as e:  # noqa
         print("MISSING EventLoop_loop_dispatches_snapshot (%s)" % e)
         out.append("(* MISSING EventLoop_loop_dispatches_snapshot: %s *)" % cmt(str(e)))
+    try:
+        guard, after, swaps = queue_facts()
+        out.append("(* muduo/net/EventLoop.cc queueInLoop: wakeup() is called iff ..; loop(): doPendingFunctors() after the dispatch loop; doPendingFunctors *)")
+        out.append("Definition EventLoop_queueInLoop_wake_guard (isInLoopThread callingPendingFunctors looping : bool) : bool :=\n  %s." % guard)
+        out.append("Definition EventLoop_loop_pending_after_dispatch : bool := %s." % ("true" if after else "false"))
+        out.append("Definition EventLoop_doPendingFunctors_swaps : bool := %s." % ("true" if swaps else "false"))
+    except Exception as e:  # noqa
+        print("MISSING EventLoop_queueInLoop_wake_guard (%s)" % e)
+        out.append("(* MISSING EventLoop_queueInLoop_wake_guard: %s *)" % cmt(str(e)))
     try:
         wf = wake_facts()
         out.append("(* muduo/net/EventLoop.cc handleRead / createEventfd, muduo/net/TimerQueue.cc handleRead / readTimerfd *)")
